@@ -402,7 +402,19 @@ func runKS(c *eng.Ctx, cf cfg) {
 
 		// ---------------- generic key switch sk -> sk2
 		var evk *rlwe.EvaluationKey
-		if !c.Try("C04|KeyGenerator.GenEvaluationKeyNew", func() { evk = e.kgen.GenEvaluationKeyNew(e.sk, sk2, evp) }) {
+		// the target key as an object of another parameter set (same ring and Q, other auxiliary primes): from this
+		// generator's point of view its rows modulo P are residues of something else. GenEvaluationKey derives the
+		// auxiliary part of the output key from its Q part ("Extends the modulus P of skOutput"), so the evaluation key
+		// must be the one for sk2 all the same.
+		skTarget := sk2
+		if lpMax >= 0 && rnd.N(3) == 0 {
+			skTarget = sk2.CopyNew()
+			for i := range skTarget.Value.P.Coeffs {
+				copy(skTarget.Value.P.Coeffs[i], gen.Vec(rnd, e.n, params.RingP().SubRings[i].Modulus-1, gen.PatUniform, 0))
+			}
+			c.Count("target_keys_with_foreign_auxiliary_rows", 1)
+		}
+		if !c.Try("C04|KeyGenerator.GenEvaluationKeyNew", func() { evk = e.kgen.GenEvaluationKeyNew(e.sk, skTarget, evp) }) {
 			continue
 		}
 		if compressed {
